@@ -175,12 +175,16 @@ def run(eng, rep) -> None:
         if not f.module.name.startswith("fcp_can_c"):
             continue
         for n in walk_local(f.node):
-            if isinstance(n, ast.Subscript) and isinstance(n.ctx, ast.Load) and isinstance(n.value, ast.Name):
-                vals = [v for k, v, st in Defs(f.node).values(n.value.id) if isinstance(v, ast.Dict)]
+            # a table of C scalar types (wherever it is bound: a local, a module constant, inline)
+            cand = None
+            if isinstance(n, ast.Dict):
+                cand = n
+            if cand is not None and cand.keys and all(isinstance(k, ast.Constant) for k in cand.keys) and all(isinstance(v, ast.Constant) and isinstance(v.value, str) and re.fullmatch(r"u?int\d+_t|float|double|bool", v.value) for v in cand.values):
+                type_map = type_map or cand
+            if isinstance(n, ast.Subscript) and isinstance(n.ctx, ast.Load) and isinstance(n.value, (ast.Name, ast.Dict)):
+                vals = [n.value] if isinstance(n.value, ast.Dict) else [v for k, v, st in Defs(f.node).values(n.value.id) if isinstance(v, ast.Dict)]
                 if len(vals) == 1 and vals[0].keys and all(isinstance(k, ast.Constant) for k in vals[0].keys):
                     keys = {k.value for k in vals[0].keys}
-                    if n.value.id == "type_map":
-                        type_map = vals[0]
                     poss = possible_keys(n.slice)
                     if poss is None:
                         rep.undecided("R06.3", f.file, f.qual, norm(n, 90), "key expression not enumerable")
